@@ -533,7 +533,6 @@ theorem sorted_prefix_min (a : List Bytes) (ha : SizeSorted a) (b : List Bytes) 
       have hbl : b.length = (b.length - 1) + 1 := by
         have := List.length_pos_of_mem hxb; omega
       rw [szSum_perm hperm, szSum_cons, hbl, List.take_succ_cons, szSum_cons]
-      simp only [Nat.add_sub_cancel]
       omega
     · cases b with
       | nil => simp [szSum]
@@ -569,19 +568,20 @@ theorem sorted_suffix_max (a : List Bytes) (ha : SizeSorted a) (han : a.Nodup) (
   have : a.length - b.length = c.length := by omega
   rw [this]; omega
 
-theorem reach_none_iff (rs : Int) (l : List Bytes) (acc : Int) (i : Nat) :
+theorem reach_none_iff (rs : Int) (l : List Bytes) (acc : Int) (i : Nat) (hacc : acc < rs) :
     reach rs l acc i = none ↔ acc + szSum l < rs := by
   induction l generalizing acc i with
-  | nil => simp [reach, szSum]
+  | nil => simp [reach, szSum]; exact hacc
   | cons k ks ih =>
     have h0 := szSum_nonneg ks
     simp only [reach, szSum_cons]
     split
     · simp; omega
-    · rw [ih]; omega
+    · rw [ih _ _ (by omega)]; omega
 
 /-- what `reach … = some m` says about prefix sums -/
-theorem reach_some_spec (rs : Int) (l : List Bytes) (acc : Int) (i m : Nat) (h : reach rs l acc i = some m) :
+theorem reach_some_spec (rs : Int) (l : List Bytes) (acc : Int) (i m : Nat) (hacc : acc < rs)
+    (h : reach rs l acc i = some m) :
     i < m ∧ m - i ≤ l.length ∧ acc + szSum (l.take (m - i - 1)) < rs ∧ rs ≤ acc + szSum (l.take (m - i)) := by
   induction l generalizing acc i with
   | nil => simp [reach] at h
@@ -590,15 +590,205 @@ theorem reach_some_spec (rs : Int) (l : List Bytes) (acc : Int) (i m : Nat) (h :
     split at h
     · rename_i hc
       cases h
-      simp only [Nat.add_sub_cancel_left, List.take_succ_cons, List.take_zero, szSum_cons, List.length_cons]
-      have : szSum ([] : List Bytes) = 0 := rfl
-      refine ⟨by omega, by omega, ?_, by omega⟩
-      simp only [Nat.sub_self, List.take_zero, this]
-      sorry
+      have e0 : szSum ([] : List Bytes) = 0 := rfl
+      have e1 : i + 1 - i = 1 := by omega
+      simp only [e1, Nat.sub_self, List.take_zero, List.take_succ_cons, szSum_cons, e0, List.length_cons]
+      exact ⟨by omega, by omega, by omega, by omega⟩
     · rename_i hc
-      obtain ⟨h1, h2, h3, h4⟩ := ih _ _ h
+      obtain ⟨h1, h2, h3, h4⟩ := ih _ _ (by omega) h
       have e1 : m - i = (m - (i + 1)) + 1 := by omega
-      have e2 : m - i - 1 = (m - (i + 1) - 1) + 1 := by omega
-      sorry
+      have e2 : m - (i + 1) + 1 - 1 = (m - (i + 1) - 1) + 1 := by omega
+      rw [e1, e2]
+      simp only [List.take_succ_cons, szSum_cons, List.length_cons]
+      exact ⟨by omega, by omega, by omega, by omega⟩
+
+theorem szSum_take_mono (l : List Bytes) (i j : Nat) (h : i ≤ j) : szSum (l.take i) ≤ szSum (l.take j) := by
+  have e : l.take j = l.take i ++ (l.drop i).take (j - i) := by
+    have : j = i + (j - i) := by omega
+    conv => lhs; rw [this, List.take_add]
+  rw [e, szSum_append]
+  have := szSum_nonneg ((l.drop i).take (j - i))
+  omega
+
+theorem take_subset_take (l : List Bytes) (i j : Nat) (h : i ≤ j) : ∀ x ∈ l.take i, x ∈ l.take j := by
+  intro x hx
+  have : l.take i = (l.take j).take i := by rw [List.take_take, Nat.min_eq_left h]
+  rw [this] at hx
+  exact (List.take_sublist _ _).subset hx
+
+/-- SOUND: whatever enumeration of the map the runtime picks, the set collected by the loop of AddValues is accepted -/
+theorem legalCount_sound (rs : Int) (ks order : List Bytes) (hk : ks.Nodup) (hp : order.Perm ks) :
+    legalCount rs ks (collect rs order) = true := by
+  have hon : order.Nodup := hp.nodup_iff.mpr hk
+  have hol : order.length = ks.length := hp.length_eq
+  rw [collect_eq]
+  by_cases hr : rs ≤ 0
+  · simp only [hr, if_true]
+    cases order with
+    | nil =>
+      have : ks = [] := List.length_eq_zero_iff.mp (by simpa using hol.symm)
+      subst this
+      simp [legalCount, sortBySize, reach]
+    | cons x xs =>
+      have h0 := elementSize_nonneg x
+      simp only [List.take_succ_cons, List.take_zero, legalCount, List.length_singleton, sortBySize,
+        List.mergeSort_singleton, reach, show (0 : Int) + elementSize x ≥ rs by omega, if_true, hr]
+      split <;> simp
+  · simp only [hr, if_false]
+    have hpos : (0 : Int) < rs := by omega
+    cases hm : reach rs order 0 0 with
+    | none =>
+      have htot : szSum order < rs := by simpa using (reach_none_iff rs order 0 0 hpos).mp hm
+      have hnone : reach rs (sortBySize order) 0 0 = none := by
+        apply (reach_none_iff rs _ 0 0 hpos).mpr
+        rw [szSum_perm (sortBySize_perm order)]; simpa using htot
+      simp only [legalCount, hol, if_true, hnone]
+    | some m =>
+      obtain ⟨hm0, hml, hlt, hge⟩ := reach_some_spec rs order 0 0 m hpos hm
+      simp only [Nat.sub_zero, Int.zero_add] at hm0 hml hlt hge
+      simp only
+      have hap := sortBySize_perm (order.take (2 * m))
+      have has := sortBySize_sorted (order.take (2 * m))
+      have hcn : (order.take (2 * m)).Nodup := (List.take_sublist _ _).nodup hon
+      have han : (sortBySize (order.take (2 * m))).Nodup := hap.nodup_iff.mpr hcn
+      by_cases hall : order.length ≤ 2 * m
+      · -- everything was collected
+        have hC : order.take (2 * m) = order := List.take_of_length_le hall
+        simp only [legalCount, hC, hol, if_true]
+        rw [hC] at hap has
+        cases hm' : reach rs (sortBySize order) 0 0 with
+        | none => rfl
+        | some m' =>
+          obtain ⟨hm0', hml', hlt', hge'⟩ := reach_some_spec rs _ 0 0 m' hpos hm'
+          simp only [Nat.sub_zero, Int.zero_add] at hm0' hml' hlt' hge'
+          simp only [hr, if_false, decide_eq_true_eq]
+          -- m ≤ m': the m' smallest keys weigh no more than the first m' keys of `order`
+          have hmm : m ≤ m' := by
+            by_cases hc : m ≤ m'
+            · exact hc
+            · exfalso
+              have hlen : (sortBySize order).length = order.length := hap.length_eq
+              have hbl : (order.take m').length = m' := by rw [List.length_take]; omega
+              have hmin := sorted_prefix_min (sortBySize order) has (order.take m') ((List.take_sublist _ _).nodup hon)
+                (fun x hx => hap.mem_iff.mpr ((List.take_sublist _ _).subset hx))
+              rw [hbl] at hmin
+              have := szSum_take_mono order m' (m - 1) (by omega)
+              omega
+          omega
+      · -- the loop stopped after 2·m keys
+        have hlt2 : 2 * m < order.length := by omega
+        have hCl : (order.take (2 * m)).length = 2 * m := by rw [List.length_take]; omega
+        have hal : (sortBySize (order.take (2 * m))).length = 2 * m := by rw [hap.length_eq, hCl]
+        have hne : ¬ (2 * m = ks.length) := by omega
+        simp only [legalCount, hCl, hne, if_false, hr, Bool.and_eq_true, decide_eq_true_eq]
+        have hd : 2 * m / 2 = m := by omega
+        rw [hd]
+        refine ⟨⟨by omega, by omega⟩, ?_, ?_⟩
+        · have hbl : (order.take (m - 1)).length = m - 1 := by rw [List.length_take]; omega
+          have hmin := sorted_prefix_min _ has (order.take (m - 1)) ((List.take_sublist _ _).nodup hon)
+            (fun x hx => hap.mem_iff.mpr (take_subset_take order (m - 1) (2 * m) (by omega) x hx))
+          rw [hbl] at hmin
+          omega
+        · have hbl : (order.take m).length = m := by rw [List.length_take]; omega
+          have hmax := sorted_suffix_max _ has han (order.take m) ((List.take_sublist _ _).nodup hon)
+            (fun x hx => hap.mem_iff.mpr (take_subset_take order m (2 * m) (by omega) x hx))
+          rw [hbl, hal] at hmax
+          omega
+
+theorem sorted_perm_eq (l1 l2 : List Int) (h1 : l1.Pairwise (· ≤ ·)) (h2 : l2.Pairwise (· ≤ ·)) (hp : l1.Perm l2) : l1 = l2 := by
+  induction l1 generalizing l2 with
+  | nil => exact (List.perm_nil.mp hp.symm).symm ▸ rfl
+  | cons x l1' ih =>
+    cases l2 with
+    | nil => exact absurd (hp.length_eq) (by simp)
+    | cons y l2' =>
+      have hx := List.pairwise_cons.mp h1
+      have hy := List.pairwise_cons.mp h2
+      have hxy : x = y := by
+        have hy_mem : y ∈ x :: l1' := hp.mem_iff.mpr (by simp)
+        have hx_mem : x ∈ y :: l2' := hp.mem_iff.mp (by simp)
+        have a1 : x ≤ y := by
+          rcases List.mem_cons.mp hy_mem with h | h
+          · omega
+          · exact hx.1 y h
+        have a2 : y ≤ x := by
+          rcases List.mem_cons.mp hx_mem with h | h
+          · omega
+          · exact hy.1 x h
+        omega
+      subst hxy
+      rw [ih l2' hx.2 hy.2 (List.Perm.cons_inv hp)]
+
+theorem sizes_sortBySize_perm {c1 c2 : List Bytes} (h : c1.Perm c2) :
+    (sortBySize c1).map elementSize = (sortBySize c2).map elementSize := by
+  apply sorted_perm_eq
+  · exact (List.pairwise_map).mpr (sortBySize_sorted c1)
+  · exact (List.pairwise_map).mpr (sortBySize_sorted c2)
+  · exact ((sortBySize_perm c1).trans (h.trans (sortBySize_perm c2).symm)).map _
+
+theorem reach_congr (rs : Int) (l1 l2 : List Bytes) (acc : Int) (i : Nat) (h : l1.map elementSize = l2.map elementSize) :
+    reach rs l1 acc i = reach rs l2 acc i := by
+  induction l1 generalizing l2 acc i with
+  | nil =>
+    cases l2 with
+    | nil => rfl
+    | cons y l2' => simp at h
+  | cons x l1' ih =>
+    cases l2 with
+    | nil => simp at h
+    | cons y l2' =>
+      simp only [List.map_cons, List.cons.injEq] at h
+      simp only [reach, h.1, ih l2' _ _ h.2]
+
+theorem szSum_take_congr (l1 l2 : List Bytes) (i : Nat) (h : l1.map elementSize = l2.map elementSize) :
+    szSum (l1.take i) = szSum (l2.take i) := by
+  simp only [szSum, List.map_take, h]
+
+theorem szSum_drop_congr (l1 l2 : List Bytes) (i : Nat) (h : l1.map elementSize = l2.map elementSize) :
+    szSum (l1.drop i) = szSum (l2.drop i) := by
+  simp only [szSum, List.map_drop, h]
+
+/-- `legalCount` looks at the candidates only through their number and their sizes: it does not depend on the order in
+    which they are listed (the real code sorts them by access time after collecting them) -/
+theorem legalCount_perm (rs : Int) (ks : List Bytes) {c1 c2 : List Bytes} (h : c1.Perm c2) :
+    legalCount rs ks c1 = legalCount rs ks c2 := by
+  have hs := sizes_sortBySize_perm h
+  have hl := h.length_eq
+  simp only [legalCount, hl, reach_congr rs _ _ 0 0 hs, szSum_take_congr _ _ _ hs, szSum_drop_congr _ _ _ hs]
+
+/-- EXACT: for a map with keys `ks`, a duplicate-free list `cands` of keys is accepted by `legalCount` iff it is (a
+    rearrangement of) what the collection loop of AddValues collects for some enumeration of the map.  (The sort by access
+    time that follows is checked separately by `sortedCands`.) -/
+theorem legalCount_exact (rs : Int) (ks cands : List Bytes) (hk : ks.Nodup) (hc : cands.Nodup) (hsub : ∀ k ∈ cands, k ∈ ks) :
+    legalCount rs ks cands = true ↔ ∃ order, order.Perm ks ∧ (collect rs order).Perm cands := by
+  constructor
+  · exact legalCount_complete rs ks cands hk hc hsub
+  · rintro ⟨order, hp, hcp⟩
+    rw [← legalCount_perm rs ks hcp]
+    exact legalCount_sound rs ks order hk hp
+
+/-! ### non-vacuity -/
+
+/-- three 33-byte keys, 30 bytes to free: one key is "barely enough", the loop takes two -/
+example : collect 30 [[97], [98], [99]] = [[97], [98]] := by decide
+
+example : legalCount 30 [[97], [98], [99]] (collect 30 [[97], [98], [99]]) = true :=
+  legalCount_sound 30 [[97], [98], [99]] [[97], [98], [99]] (by decide) (List.Perm.refl _)
+
+/-- an accepted candidate set that is not a prefix of the listed keys: accepted because another enumeration collects it -/
+example : legalCount 30 [[97], [98], [99]] [[99], [97]] = true :=
+  (legalCount_exact 30 [[97], [98], [99]] [[99], [97]] (by decide) (by decide) (by decide)).mpr
+    ⟨[[97], [99], [98]], by decide, by decide⟩
+
+/-- RemoveByTTL: two of three entries expired, the loop may look at two entries -/
+def ttlDemo : St := { cache := [([97], ⟨1, 10⟩), ([98], ⟨2, 90⟩), ([99], ⟨3, 20⟩)], maxTTL := 30 }
+
+example : ttlRemoved ttlDemo 2 100 [[99], [98], [97]] = [[99]] := by decide
+
+example : legalRemoved ttlDemo 2 100 (ttlRemoved ttlDemo 2 100 [[99], [98], [97]]) = true :=
+  legalRemoved_sound ttlDemo 2 100 [[99], [98], [97]] (by decide) (by decide)
+
+example : ∃ order, order.Perm (keys ttlDemo.cache) ∧ ttlRemoved ttlDemo 2 100 order = [[97], [99]] :=
+  legalRemoved_complete ttlDemo 2 100 [[97], [99]] (by decide) (by decide)
 
 end SH.C21
